@@ -6,7 +6,7 @@ CONSTANTS
   XPaths = {"absent", "encoded", "withport", "emptywithport"}
   XStreams = {"none", "tcp", "unix", "invalid"}
   XStarttls = {TRUE, FALSE}
-  XTimeouts = {"none", "short"}
+  XTimeouts = {"none", "short", "huge"}
   XEndpoints = {"listening", "refused", "silent"}
 INVARIANTS Laws Emit
 CHECK_DEADLOCK FALSE
